@@ -44,6 +44,11 @@ Theorem C13_shift_keeps_well_formed : forall d s r, shift d s = Ok r -> seq_wf s
 Proof. exact shift_wf. Qed.
 Print Assumptions C13_shift_keeps_well_formed.
 
+Theorem C13_shift_twice_is_shift_by_sum : forall a b s r,
+  shift a s = Ok r -> 0 < b -> shift b r = shift (a + b) s.
+Proof. exact shift_shift. Qed.
+Print Assumptions C13_shift_twice_is_shift_by_sum.
+
 (** ** stretch_note_sequence: every time * fn/fd (section annotations included: F16), every qpm / (fn/fd),
        nothing else touched; for ALL sequences and ALL positive factors fn/fd. *)
 Theorem C13_stretch_spec : forall fn fd s,
@@ -201,6 +206,18 @@ Theorem C13_repeat_cut_keeps_exactly_notes_starting_before_d : forall d l n',
 Proof. exact window_notes_In. Qed.
 Print Assumptions C13_repeat_cut_keeps_exactly_notes_starting_before_d.
 
+(** All of the above in one statement about the notes of the result. *)
+Theorem C13_repeat_result_notes : forall s d osd r,
+  is_quantized s = false -> 0 < s_total s <= eff_dur s osd -> 0 < d ->
+  repeat_to_duration s d osd = Ok r ->
+  let sd := eff_dur s osd in
+  let n := Z.to_nat (ceil_div d sd) in
+  forall n', In n' (s_notes r) <->
+    exists k n0, (k < n)%nat /\ In n0 (s_notes s) /\ 0 <= n_start n0 + Z.of_nat k * sd < d /\
+      n' = note_with_times n0 (n_start n0 + Z.of_nat k * sd) (Z.min (n_end n0 + Z.of_nat k * sd) d).
+Proof. exact repeat_result_notes. Qed.
+Print Assumptions C13_repeat_result_notes.
+
 Theorem C13_repeat_rejects_zero_duration : forall s d osd,
   eff_dur s osd = 0 -> repeat_to_duration s d osd = Err EZeroDiv.
 Proof. exact repeat_zero_duration. Qed.
@@ -241,6 +258,19 @@ Theorem C13_adjust_accepts_monotone_maps : forall f s,
   adjust_rejects f s = false.
 Proof. exact adjust_monotone_ok. Qed.
 Print Assumptions C13_adjust_accepts_monotone_maps.
+
+(** With minimum_duration = m <> 0 nothing is skipped: a collapsed note gets end = f(start) + m. *)
+Theorem C13_adjust_min_duration_spec : forall f m s, m <> 0 ->
+  adjust_rejects_md f m s = false ->
+  exists r, adjust f (Some m) s = Ok (r, 0) /\
+    s_notes r = map (note_md f m) (s_notes s) /\
+    s_tempos r = [] /\
+    s_tsigs r = map (tsig_t f) (s_tsigs s) /\ s_ksigs r = map (ksig_t f) (s_ksigs s) /\
+    s_texts r = map (text_t f) (s_texts s) /\ s_ccs r = map (cc_t f) (s_ccs s) /\
+    s_bends r = map (bend_t f) (s_bends s) /\ s_sects r = map (sect_t f) (s_sects s) /\
+    s_total r = max_end (s_notes r) /\ s_sub r = s_sub s /\ same_rest s r.
+Proof. exact adjust_md_spec. Qed.
+Print Assumptions C13_adjust_min_duration_spec.
 
 (** ** rectify_beats: the beat map is non-decreasing everywhere (also after total_time: fix 2), sends
        beat i to i beats, is exactly linear in between; the beat list is strictly increasing; a
